@@ -11,7 +11,9 @@ package main
 //@ pure func wordLE(raw []byte, k int) int := raw[2*k] + 256 * raw[2*k + 1]
 //@ pure func onEdge(f *cptvframe.Frame, edge int, y int, x int) bool := y < edge || x < edge || y >= len(f.Pix) - edge || x >= roww(f) - edge
 
+//@ axiom parserBaseBoson := motion.parserBase(funcval("cmd/thermal-recorder.convertRawBosonFrame")) == 0
 //@ func convertRawBosonFrame
+//@   implements [C12,C13] motion.FrameParser
 //@   requires out != nil && len(out.Pix) >= 0 && edgePixels >= 0
 //@   requires forall y int :: 0 <= y && y < len(out.Pix) ==> len(out.Pix[y]) == roww(out) && owner(arr(out.Pix[y])) == ref(out) && rowof(arr(out.Pix[y])) == y
 //@   requires len(raw) >= 2 * (len(out.Pix) * roww(out))
@@ -171,6 +173,7 @@ package main
 //@   call LoadMotionConfig#1 assert [C07,C11,C15] $0 == conf && $1 == headerInfo.model
 //@   call LoadMotionConfig#1 given_after 0 <= conf.Recorder.MinSecs && conf.Recorder.MinSecs <= conf.Recorder.MaxSecs && conf.Recorder.PreviewSecs * headerInfo.fps + conf.Motion.TriggerFrames >= 1 && conf.Motion.FrameCompareGap >= 0 && conf.Motion.EdgePixels >= 0 && 2 * conf.Motion.EdgePixels < headerInfo.resX && 2 * conf.Motion.EdgePixels < headerInfo.resY && time.dsecs(conf.Throttler.BucketSize) >= 0.0
 //@   call frameParser#1 assert [C13,C11] $0 == headerInfo.brand && $1 == headerInfo.model
+//@   call frameParser#1 given_after $result != nil ==> headerInfo.framesize >= motion.parserBase($result) + 2 * (headerInfo.resY * headerInfo.resX)
 //@   call NewCPTVFileRecorder#1 assert [C11] $0 == conf && ref($1) == headerInfo && $2 == headerInfo.brand && $3 == headerInfo.model && $4 == headerInfo.serial && $5 == headerInfo.firmware
 //@   call NewCPTVFileRecorder#2 assert [C11,C17] $0 == conf && ref($1) == headerInfo && $2 == headerInfo.brand && $3 == headerInfo.model && $4 == headerInfo.serial && $5 == headerInfo.firmware && conf.Recorder.ConstantRecorder
 //@   call NewCPTVFileRecorder#3 assert [C11,C17] $0 == conf && ref($1) == headerInfo && $2 == headerInfo.brand && $3 == headerInfo.model && $4 == headerInfo.serial && $5 == headerInfo.firmware
@@ -179,6 +182,7 @@ package main
 //@   call NewMotionProcessor#1 assert [C05,C11] (conf.Throttler.Activate ==> sitehappened("NewThrottledRecorder", 1)) && (sitehappened("NewThrottledRecorder", 1) ==> conf.Throttler.Activate && ref($5) == siteres("NewThrottledRecorder", 1)) && (!conf.Throttler.Activate ==> ref($5) == siteres("NewCPTVFileRecorder", 1))
 //@   call NewMotionProcessor#1 assert [C02,C03,C04,C07,C08,C11,C13,C15] $0 == callres("frameParser", 1) && $0 != nil && $1 == ref(conf.Motion) && $2 == ref(conf.Recorder) && $3 == ref(conf.Location) && ref($6) == headerInfo
 //@   call NewMotionProcessor#1 assert [C12,C17] (conf.Recorder.ConstantRecorder ==> sitehappened("NewCPTVFileRecorder", 2)) && (sitehappened("NewCPTVFileRecorder", 2) ==> conf.Recorder.ConstantRecorder && ref($7) == siteres("NewCPTVFileRecorder", 2)) && (!conf.Recorder.ConstantRecorder ==> ref($7) == 0) && ref($8) == siteres("NewCPTVFileRecorder", 3)
+//@   loop 1 invariant [C12,C13] len(rawFrame) >= motion.parserBase(processor.parseFrame) + 2 * (processor.motionDetector.gResY * processor.motionDetector.gResX)
 //@   loop 1 invariant processor != nil && processor.PInv() && processor.parseFrame != nil && len(rawFrame) >= 5 && headerInfo != nil && headerInfo.fps >= 1 && frameLogIntervalFirstMin >= 1 && frameLogInterval >= 1 && reader != nil
 //@   loop 1 invariant [C14,C13] ncalls("ReadFull") == 2 * ncalls("Process") + ncalls("Reset")
 //@   call ReadFull#1 assert [C14] ref($0) == reader && arr($1) == arr(rawFrame) && off($1) == off(rawFrame) && len($1) == 5
